@@ -32,7 +32,8 @@ SIGABRT = 6
 
 ENTRIES = ["arc_sized", "arc_slice", "arc_dyn", "thin", "offset_clone", "offset_clone_arc",
            "borrow_clone_arc", "union_first", "union_second",
-           "with_arc_offset", "with_arc_thin", "with_arc_borrow"]
+           "with_arc_offset", "with_arc_thin", "with_arc_borrow",
+           "asw_arc_load_full", "asw_thin_load_full"]       # handles produced by arc-swap (RefCnt::inc), both configs have the feature
 STARTS = [1, 2, 2 ** 31, 2 ** 32, ISIZE_MAX - 1, ISIZE_MAX, ISIZE_MAX + 1, ISIZE_MAX + 2,
           USIZE_MAX - 1, USIZE_MAX]
 # configuration -> features of the triomphe crate the harness is built with
@@ -253,6 +254,22 @@ def run(ctx):
         if m:
             hostile.append((c, o, m))
     ctx.oblige("faults:abort-with-unwritable-stderr", not hostile, "%d cases" % len(hostile))
+    # two threads cloning at the limit: from isize::MAX two increments cannot both stay at or below the limit, so every
+    # trial must end in SIGABRT (a guard that looks before it increments lets both through in some interleavings)
+    ntr = 160 if not ctx.thorough() else 2000
+    with ThreadPoolExecutor(max_workers=8) as ex:
+        robs = list(ex.map(lambda i: run_child(bins["std" if i % 2 == 0 else "nostd"], "arc_race2", ISIZE_MAX), range(ntr)))
+    racing = [(i, o) for i, o in enumerate(robs) if o["status"] != "signal:%d" % SIGABRT]
+    ctx.oblige("schedule:two-racing-clones-at-the-limit-abort", not racing, "%d of %d trials survived" % (len(racing), ntr))
+    ctx.coverage["racing_clone_trials"] = ntr
+    if racing and not hostile:
+        i, o = racing[0]
+        hostile_body = ["C16 violated by a concrete child-process run (%d of %d trials): two threads each clone once from count isize::MAX = %d;" % (len(racing), ntr, ISIZE_MAX),
+                        "the second increment is above the limit in every interleaving, so the process must be killed by SIGABRT.", "",
+                        "config: %s   argv: ovf arc_race2 %d" % ("std" if i % 2 == 0 else "nostd", ISIZE_MAX), "observed status: %s" % o["status"],
+                        "observed stdout: %s" % " | ".join(o["stdout"]), "", DEMAND, "replay by hand: run `<harness>/ovf arc_race2 %d` repeatedly" % ISIZE_MAX]
+        ctx.violation("child", "\n".join(hostile_body), True)
+        return
     ctx.coverage["hostile_stderr_cases"] = len(hc)
 
     for cfg in CONFIGS:
